@@ -11,13 +11,14 @@ from .c03 import quiet, close, embed_cols, err_site, names_meta
 
 ID = "C04"
 LEAN_MODULES = ["NiftyVerif.Core.Proto", "NiftyVerif.Model.Expr", "NiftyVerif.Model.ExprIO", "NiftyVerif.Model.PartialEval",
-                "NiftyVerif.Props.C04", "NiftyVerif.Props.C04Metric", "NiftyVerif.Props.C04Ham", "NiftyVerif.Props.C04Keys"]
+                "NiftyVerif.Props.C04", "NiftyVerif.Props.C04Metric", "NiftyVerif.Props.C04Ham", "NiftyVerif.Props.C04Keys", "NiftyVerif.Props.C04Presence"]
 DRIVER = "Driver/C04.lean"
 TRANSLATORS = [t2_pointwise.translate]
 OBLIGATIONS = ["NiftyVerif.C04." + t for t in (
     "eval_congr", "lin_congr_env", "jac_congr", "pe_target", "pe_sound", "pe_jac", "jac_zero",
     "partialVar_grad_zero", "partialVar_eq_pe", "energyAdapter_constants", "adj_support", "pe_adj", "metric_congr",
-    "metric_support", "pe_metric_partial", "hamiltonian_pe_offset_partial", "pe_keys")]
+    "metric_support", "pe_metric_partial", "hamiltonian_pe_offset_partial", "pe_keys", "cout_none", "metric_isSome_iff", "pe_isLH", "pe_metric_presence",
+    "pe_metric_presence_witness")]
 RULE = ("generated multi-domain operator/energy trees (as C03, >= 2 input keys) x EVERY non-empty proper subset of the "
         "operator's input keys as constants; per (tree, subset): real simplify_for_constant_input vs original with the "
         "constants inserted (value, dense Jacobian, adjoint, metric), EnergyAdapter(constants=...), make_partial_var, "
@@ -68,15 +69,30 @@ def real_case(case):
                 p = p.extract(op.domain)
             cst = p.extract_by_keys(S)
             c_out, sop = op.simplify_for_constant_input(cst)
+            # trivial paths of the generic rule: nothing constant, everything constant
+            triv = []
+            o_none = op.simplify_for_constant_input(None)
+            if o_none[0] is not None or o_none[1] is not op:
+                triv.append("simplify_for_constant_input(None) does not return (None, self)")
+            if not b.single:
+                c_all, op_all = op.simplify_for_constant_input(p)
+                if len(op_all.domain.keys()) != 0:
+                    triv.append("with every key constant the simplified operator still has input keys")
+                else:
+                    e0 = ift.full(op_all.domain, 0.)
+                    la = op_all(ift.Linearization.make_var(e0, wm))
+                    if not close(X.to_flat(la.val, tdom), r0["pval"], 1e-12) or not close(X.to_flat(op_all(e0), tdom), r0["pval"], 1e-12):
+                        triv.append("with every key constant the simplified operator does not return the original value")
             dvar = {k: v for k, v in din.items() if k not in S}
-            res = dict(orig=r0, din=din, dvar=dvar, c_out_none=c_out is None,
+            res = dict(orig=r0, triv=triv, din=din, dvar=dvar, c_out_none=c_out is None,
                        keys=sorted(sop.domain.keys()), target_same=sop.target is op.target)
             bv = X.Builder(dvar, case.get("space", "U"))
             res["simp"] = X.linearize(bv, sop, tdom, {k: x[k] for k in dvar}, wm)
             res["consts"] = X.walk_consts(sop)
             # structure is compared only where the model mirrors the real tree shape: no InsertionOperator fallback and
             # no n-ary linear SumOperator (the library flattens sums of linear operators, the model's `add` is binary)
-            res["has_insertion"] = "InsertionOperator" in repr(sop) or "SumOperator" in repr(op)
+            res["has_insertion"] = ("InsertionOperator" in repr(sop) or "SumOperator" in repr(op)
+                                    or "VariableCovariance" in repr(op))
             # make_partial_var on the ORIGINAL operator
             lin = op(ift.Linearization.make_partial_var(p, S, wm))
             res["partial"] = dict(val=X.to_flat(lin.val, tdom), jac=X.dense(lin.jac, b, din, tdom),
@@ -114,6 +130,8 @@ def oracle(case):
     if "error" in r:
         return (f"raised {r['error']} in {r.get('where')}: {r.get('msg')}", dict(sig, kind="error:" + r["error"], where=r.get("where")))
     o, s, S = r["orig"], r["simp"], case["S"]
+    if r.get("triv"):
+        return (r["triv"][0], dict(sig, kind="trivial-path"))
     cols = var_cols(r["din"], S)
     if r["keys"] != sorted(r["dvar"]):
         return (f"simplified operator reads {r['keys']}, expected {sorted(r['dvar'])}", dict(sig, kind="domain"))
@@ -174,7 +192,7 @@ def canon_consts(lst):
     out = []
     for en, vals in lst:
         flat = tuple(round(abs(float(v)), 9) for k in sorted(vals) for v in vals[k])
-        out.append((bool(en), tuple(sorted(vals)), flat))
+        out.append((bool(en), flat))      # key names are not compared (helper keys of einsum operands, ducktapes)
     return sorted(out)
 
 
@@ -221,6 +239,16 @@ def compare(ctx, case, r, m):
 
 
 def shrink(case):
+    if case.get("aux") == "jaxsimp":
+        if case.get("wm"):
+            yield dict(case, wm=False)
+        return
+    if case.get("aux") == "sea":
+        if case["nsamp"] > 1:
+            yield dict(case, nsamp=1)
+        if case.get("mirror"):
+            yield dict(case, mirror=False)
+        return
     if "aux" in case:
         if case["n"] > 1:
             m = case["n"] - 1
@@ -263,6 +291,8 @@ def run(ctx):
         (aux if "aux" in c else cases).append(c)
     # per-class rules outside the Lean model (VariableCovarianceGaussianEnergy, StandardHamiltonian): oracle on the real code
     aux += AUX.gen(ctx.rng, ctx.n(60, 600))
+    aux += AUX.gen_sea(ctx.rng, ctx.n(12, 120))
+    aux += AUX.gen_jax(ctx.rng, ctx.n(8, 60))
     for c in aux:
         ctx.stat("aux:" + c["aux"])
         ctx.case(c, nontrivial=True)
